@@ -1,4 +1,5 @@
 """C10 — documented thread-safe API is race-free and atomic under concurrent use (lock-granularity part)."""
+import os
 import vlib
 
 TSAN_ENV = {"TSAN_OPTIONS": "halt_on_error=0:exitcode=0:report_signal_unsafe=0"}
@@ -143,6 +144,38 @@ def run(ck):
             ck.violation("race.two-readers-one-message", {"property": "C10", "scenario": "one queued message; reader A parked before its %d-th mutex acquisition inside the read function while reader B pops" % k,
                          "queue": q, "message": hexs(m), "observed": ls, "driver_rc": rc, "stderr": err[-500:], "reason": "the message was not returned to exactly one reader (or a reader crashed)"})
     ck.oblige("concurrency probe: two readers racing for one queued message (%d forced schedules)" % len(rp), rbad == 0, "%d bad" % rbad)
+    # linearizability of the read-modify-write commands on one train: command A is parked before its k-th mutex acquisition while
+    # command B runs (or blocks on a lock A holds); the final tracked state must be that of a serial order (both effects present)
+    cfg10 = os.path.join(vlib.VERIF, "corpus", "C10", "cfg")
+    pairs = [("tper t1 head 1 master", "tper t1 cabin 1 master", {"head": 1, "cabin": 1}, None),
+             ("tper t1 head 1 master", "tper t1 smoke 1 master", {"head": 1, "smoke": 1}, None),
+             ("speed t1 50 master", "tper t1 horn 1 master", {"horn": 1}, 50),
+             ("tper t1 horn 1 master", "speed t1 -30 master", {"horn": 1}, -30),
+             ("tper t1 cabin 1 master", "tper t1 horn 1 master", {"cabin": 1, "horn": 1}, None)]
+    L = ["start 0 %s 0" % cfg10, "logw 0", "nodenew 0 0 0 0 da000d680001ee"]; hp = []
+    for pi, (ja, jb, want, spd) in enumerate(pairs):
+        for k in range(1, (9 if ck.tier == "quick" else 17)):
+            cid = "h%d_%d" % (pi, k); hp.append((cid, k, ja, jb, want, spd))
+            L += ["case " + cid, "reset_nodes"] + ["hlseq tper t1 %s 0 master" % x for x in ("head", "cabin", "horn", "smoke")] + ["hlseq speed t1 0 master", "flush", "reset_nodes",
+                  "schedhl %d %s %s" % (k, ja, jb), "flush", "trainstate t1"]
+    rc, out, err = vlib.run_driver(exe3, "\n".join(L) + "\n", timeout=300)
+    hc = vlib.split_cases(out); hbad = 0; inside = 0
+    for cid, k, ja, jb, want, spd in hp:
+        ls = hc.get(cid) or []
+        st = next((l for l in ls if l.startswith("trainstate t1 ")), None); sh = next((l for l in ls if l.startswith("schedhl ")), "")
+        if " b-inside 1" in sh: inside += 1
+        ok = st is not None and " retA 0 retB 0" in sh
+        if ok:
+            f = st.split(); per = dict(x.split("=") for x in f[f.index("per") + 1:]); speed = int(f[f.index("speed") + 1])
+            ok = all(int(per.get(n, -1)) == v for n, v in want.items()) and (spd is None or speed == spd)
+        if not ok:
+            hbad += 1
+            if hbad <= 2:
+                ck.violation("race.lost-update.train-commands", {"property": "C10", "scenario": "command A parked before its %d-th mutex acquisition while command B runs; then A continues" % k,
+                             "A": ja, "B": jb, "expected_final_state": {"peripherals": want, "speed": spd}, "observed": ls, "driver_rc": rc, "stderr": err[-400:],
+                             "script": [l.replace(vlib.VERIF, "$VERIF") for l in L[:3]] + ["schedhl %d %s %s" % (k, ja, jb), "flush", "trainstate t1"],
+                             "reason": "the final tracked state is not the outcome of any serial order of the two commands (an effect was lost), or a command failed"})
+    ck.oblige("concurrency probe: two commands on one train under forced schedules are serialisable (%d schedules; in %d of them B completed while A was parked)" % (len(hp), inside), hbad == 0, "%d bad" % hbad)
     ck.coverage.update({"evaluations": side.get("contexts", 0), "distinct_nontrivial": len(side.get("globals", [])),
                         "rule": "all thread-safe public functions and internal threads checked context-sensitively against the guard table (guards from the 'guarded by' comments of bidib_state_intern.h plus the fixed table in the translator), every access with its read/write mode; distinct_nontrivial = guarded globals / guarded calls; evaluations = distinct (function, boolean arguments, held locks with mode) contexts",
                         "samples": [{"global": g, "guard": l} for g, l in list(side.get("guards", {}).items())[:8]], "exhaustive": True,
@@ -172,5 +205,15 @@ def replay(ck, path):
             print("--- script"); print("\n".join(d["script"]))
             print("--- implementation under ThreadSanitizer (exit %d): %d data race report(s) in library frames" % (rc, len(races))); print(out)
             for r in races[:3]: print(r["report"])
+            return 0
+        if "expected_final_state" in d and "script" in d:
+            print("replay of %s" % path)
+            for k in ("reason", "scenario", "A", "B", "expected_final_state"):
+                if k in d: print("%s: %s" % (k, json.dumps(d[k])[:800]))
+            script = [l.replace("$VERIF", vlib.VERIF) for l in d["script"]]
+            exe = vlib.build_harness(wrap=("pthread_mutex_lock",))
+            rc, out, err = vlib.run_driver(exe, "\n".join(script) + "\n", timeout=120)
+            print("--- script"); print("\n".join(script))
+            print("--- implementation (exit %d)" % rc); print(out)
             return 0
     return vlib.replay_generic(ck, path)
